@@ -586,7 +586,9 @@ def k_gen_limit(ctx, count):
         for u in range(1, n + 1):
             sc.users[u] = (rng.choice([63, 47, 31]), False)
             sc.sessions[u] = u
-        ops = [(1, "sub", ["new", hx(""), hx(rng.choice(["JRWPS", "JRWPAS", ""]))])]
+        # 2 in 5 groups are channel-enabled ({sub topic="nch.."}): every request below still addresses the topic by its
+        # grpXXX name, so every subscription is a full one and counts towards the limit
+        ops = [(1, "sub", ["nch" if rng.random() < 0.4 else "new", hx(""), hx(rng.choice(["JRWPS", "JRWPAS", ""]))])]
         for _ in range(rng.randint(6, 14)):
             u = rng.randint(2, n)
             r = rng.random()
@@ -840,7 +842,7 @@ def run(ctx):
                 elif w[0] == "sess":
                     sc.sessions[int(w[1])] = int(w[2])
             sc.ops = [(o[0], o[1], o[2]) for o in rp["ops"]]
-            sc.modelled = not any(o[2] and str(o[2][0]) in ("new", "g1") for o in sc.ops)
+            sc.modelled = not any(o[2] and str(o[2][0]) in ("new", "nch", "g1") for o in sc.ops)
             ks = [sc]
         else:
             sc = T.Scn(rp["head"][0].split()[1])
